@@ -6,7 +6,8 @@ reads `a/src/...`, with -p1; `*rg*` / `*wk*` are flat enumerations of a recursiv
 
     silent_<name>.diff      a behaviour-preserving re-write (recursive walk, generator walker in another module, filter at push time,
                             isinstance dispatch, first-match helpers, flag loops, option dataclass, build loops, ...): exit 0 expected
-    undecided_<name>.diff   a shape the rules deliberately do not decide (one combined regex): no VIOLATION, exit 2 expected
+    undecided_<name>.diff   a shape the rules deliberately do not decide: no VIOLATION, exit 2 expected (none at present: the one
+                            combined regex is decided as a C08.R2 VIOLATION, R2_f6_* / R2_h7_*)
     R<n>_<name>.diff        one of the silent variants with a defect seeded into it: a VIOLATION of C08.R<n> expected
 
 usage: run.py [name-substring ...]
